@@ -521,6 +521,7 @@ pub mod type_inference {
         arg: [*mut CUnificationVar; 2],
         frozen: c_size_t,
         kind: CTypeName,
+        occurs_check: bool,
     }
 
     #[repr(C)]
